@@ -38,7 +38,7 @@ def scenarios(rng, pool, n):
         sep = b'\r\n' if rng.random() < 0.15 else b'\n'
         data = sep.join(lines) + (sep if lines and rng.random() < 0.8 else b'')
         sc = {'files': {}, 'dirs': [], 'stdin': None, 'args_extra': [], 'data': data, 'encrypt': False, 'keyfile': None, 'cfg': rng.choice([Cfg(), Cfg(nums=True, bools=True), Cfg(nss=True, ips=True, repl='ZZ')])}
-        chan = rng.choice(['plain', 'plain', 'gz', 'gz', 'GZ', 'gzname-plain', 'gz-cut-header', 'notgz', 'stdin', 'stdin', 'none', 'missing', 'dir', 'dotgz', 'file+stdin', 'emptyarg'])
+        chan = rng.choice(['plain', 'plain', 'gz', 'gz', 'GZ', 'gzname-plain', 'gz-cut-header', 'notgz', 'stdin', 'stdin', 'none', 'missing', 'dir', 'dotgz', 'file+stdin', 'emptyarg', 'toolong', 'toolong-stdin'])
         inp = None
         if chan == 'plain': inp = 'in.log'; sc['files'][inp] = (data, 0o644)
         elif chan == 'gz': inp = 'in.log.gz'; sc['files'][inp] = (streamlib.gz_bytes(data, members=rng.choice([1, 2])), 0o644)
@@ -48,6 +48,11 @@ def scenarios(rng, pool, n):
         elif chan == 'gz-cut-header': inp = 'cut.gz'; sc['files'][inp] = (streamlib.gz_bytes(data)[:rng.randint(0, 9)], 0o644)
         elif chan == 'notgz': inp = rng.choice(['in.gz.txt', 'in.gzip', 'gz', 'in.gz.']); sc['files'][inp] = (data, 0o644)
         elif chan == 'stdin': sc['stdin'] = data
+        elif chan in ('toolong', 'toolong-stdin'):      # lines, then one over the reader's limit, then more lines: the run fails part-way
+            lim = streams.line_limit() or 70000
+            data = data + b'y' * (lim + 50) + b'\n' + data; sc['data'] = data
+            if chan == 'toolong': inp = 'long.log'; sc['files'][inp] = (data, 0o644)
+            else: sc['stdin'] = data
         elif chan == 'missing': inp = 'nothere.log'
         elif chan == 'dir': inp = 'adir'; sc['dirs'].append('adir')
         elif chan == 'file+stdin': inp = 'in.log'; sc['files'][inp] = (data, 0o644); sc['stdin'] = data
